@@ -25,9 +25,9 @@ include hext
 
 section
 variable {env : Env} (hflt : env.flt = false) (cfg' : FromValue.Cfg) (hap : cfg'.ap = false) (ext' : FromValue.Ext)
-include hflt hap
+include hflt
 
-omit hext hap in
+omit hext in
 /-- `deserialize_str` with any visitor on a printed string -/
 theorem deStr_quote (visit : Bytes → FromValue.R) (s : Bytes) (hu : Spec.Utf8.validUtf8 s = true) (rest : Bytes) (pos : Nat) :
     deStr env visit (T ext (.str s) ++ rest) pos =
@@ -42,7 +42,7 @@ theorem deStr_quote (visit : Bytes → FromValue.R) (s : Bytes) (hu : Spec.Utf8.
   congr 2
   omega
 
-omit hext hap ext in
+omit hext ext in
 /-- the same, on the quoted spelling -/
 theorem deStr_quote' (visit : Bytes → FromValue.R) (s : Bytes) (hu : Spec.Utf8.validUtf8 s = true) (rest : Bytes) (pos : Nat) :
     deStr env visit (quote s ++ rest) pos = fixPos env false (ofVisit (visit s) rest (pos + (quote s).length)) := by
@@ -57,15 +57,15 @@ theorem deStr_quote' (visit : Bytes → FromValue.R) (s : Bytes) (hu : Spec.Utf8
   omega
 
 /-- string-like targets (`String`, `char`, identifiers): the visitor's verdict on the string, failure on anything else -/
-theorem agree_strlike (visit : Bytes → FromValue.R) (v : JV) (hv : VOK v) :
+theorem agree_strlike_g (visit : Bytes → FromValue.R) (v : JV) (hv : VOKg v) :
     Agree1 (deStr env visit) (match v with | .str s => visit s | _ => FromValue.fail) (T ext v) := by
   intro rest pos hs
-  obtain ⟨c, tl, hT, hc⟩ := T_head ext hext v hv
+  obtain ⟨c, tl, hT, hc⟩ := T_head_g ext hext v hv
   have hw := (headOf_facts hc).1
   have ht := headOf_tests hc
   cases v with
   | str s =>
-    have hu : Spec.Utf8.validUtf8 s = true := by simpa [VOK, shapeW] using hv
+    have hu : Spec.Utf8.validUtf8 s = true := vokg_str hv
     have hq := deStr_quote ext hflt visit s hu rest pos
     simp only []
     cases hvis : visit s with
@@ -81,31 +81,46 @@ theorem agree_strlike (visit : Bytes → FromValue.R) (v : JV) (hv : VOK v) :
     simp only [ht.2.2.2.2.2.2.2.2, Bool.false_eq_true, if_false]
     exact peekInvalidType_not_ok _ _ _ _ _ _
 
-theorem agree_string (v : JV) (hv : VOK v) :
+include hap in
+theorem agree_strlike (visit : Bytes → FromValue.R) (v : JV) (hv : VOK v) :
+    Agree1 (deStr env visit) (match v with | .str s => visit s | _ => FromValue.fail) (T ext v) := by
+  have := agree_strlike_g ext hext hflt visit v hv.g
+  cases v <;> exact this
+
+theorem agree_string_g (v : JV) (hv : VOKg v) :
     Agree1 (deStr env (fun x => .ok (.str x))) (FromValue.fromValue cfg' ext' .string v) (T ext v) := by
-  have := agree_strlike ext hext hflt cfg' hap (fun x => .ok (.str x)) v hv
+  have := agree_strlike_g ext hext hflt (fun x => .ok (.str x)) v hv
   cases v <;> simpa [FromValue.fromValue] using this
 
-theorem agree_char (v : JV) (hv : VOK v) :
+theorem agree_char_g (v : JV) (hv : VOKg v) :
     Agree1 (deStr env FromValue.visitCharStr) (FromValue.fromValue cfg' ext' .char v) (T ext v) := by
-  have := agree_strlike ext hext hflt cfg' hap FromValue.visitCharStr v hv
+  have := agree_strlike_g ext hext hflt FromValue.visitCharStr v hv
   cases v <;> simpa [FromValue.fromValue] using this
 
-omit hflt hap hext in
+include hap in
+theorem agree_string (v : JV) (hv : VOK v) :
+    Agree1 (deStr env (fun x => .ok (.str x))) (FromValue.fromValue cfg' ext' .string v) (T ext v) :=
+  agree_string_g ext hext hflt cfg' ext' v hv.g
+
+include hap in
+theorem agree_char (v : JV) (hv : VOK v) :
+    Agree1 (deStr env FromValue.visitCharStr) (FromValue.fromValue cfg' ext' .char v) (T ext v) :=
+  agree_char_g ext hext hflt cfg' ext' v hv.g
+
+omit hflt hext in
 theorem deSeq_open (t : Nat) (visit : Bytes → Nat → TOut) (tl : Bytes) (pos : Nat) (htd : tooDeep env t = false) :
     deSeq env t visit (0x5b :: tl) pos = closeWith env (endSeq env) (visit tl (pos + 1)) := by
   unfold deSeq
   rw [withPeek_cons env _ (by decide)]
   simp only [beq_self_eq_true, if_true, htd, Bool.false_eq_true, if_false]
 
-/-- byte buffers: a string (raw: escapes decoded, no validation) or an array of `u8`. `hfl`: a float among the elements is
-    refused by `deserialize_u8` (see `agree_int`) -/
-theorem agree_bytes (t : Nat) (v : JV) (hv : VOK v) (hd : DepthOK env t v)
-    (hfl : ∀ xs, v = .arr xs → ∀ x ∈ xs, ∀ b, x = .num (.float b) → ∀ rest pos, SepOK rest → ∀ y r p,
-      deInt env .u8 (T ext x ++ rest) pos ≠ .ok y r p) :
+/-- byte buffers: a string (raw: escapes decoded, no validation) or an array of `u8`. `hel8`: the `u8` target on every element
+    of an array (`agree_int` without `arbitrary_precision`) -/
+theorem agree_bytes_g (t : Nat) (v : JV) (hv : VOKg v) (hd : DepthOK env t v)
+    (hel8 : ∀ xs, v = .arr xs → ∀ x ∈ xs, Agree1w (deInt env .u8) (FromValue.fromValue cfg' ext' (.int .u8) x) (T ext x)) :
     Agree1 (deBytes env t) (FromValue.fromValue cfg' ext' .bytes v) (T ext v) := by
   intro rest pos hs
-  obtain ⟨c, tl, hT, hc⟩ := T_head ext hext v hv
+  obtain ⟨c, tl, hT, hc⟩ := T_head_g ext hext v hv
   have hw := (headOf_facts hc).1
   have ht := headOf_tests hc
   cases v with
@@ -124,13 +139,13 @@ theorem agree_bytes (t : Nat) (v : JV) (hv : VOK v) (hd : DepthOK env t v)
     have hel : ∀ x ∈ xs, Agree1w (deNumber env (.int .u8)) (FromValue.deInt cfg' .u8 x) (T ext x) ∧
         ∃ c tl, T ext x = c :: tl ∧ HeadOf x c := by
       intro x hx
-      have hvx := vok_elem xs x hx hv
-      refine ⟨Agree1.weak ?_, T_head ext hext x hvx⟩
+      have hvx := vokg_elem xs x hx hv
+      refine ⟨?_, T_head_g ext hext x hvx⟩
       have e : deInt env .u8 = deNumber env (.int .u8) := by funext r p; simp [deInt, is128, IntTy.bits]
-      have := agree_int ext hext hflt cfg' hap ext' .u8 x hvx (hfl xs rfl x hx)
+      have := hel8 xs rfl x hx
       rw [e] at this
       simpa [FromValue.fromValue] using this
-    have hloop := seqLoop_text ext hext hflt cfg' hap (deNumber env (.int .u8)) (FromValue.deInt cfg' .u8) xs hel true []
+    have hloop := seqLoop_text ext hext hflt (deNumber env (.int .u8)) (FromValue.deInt cfg' .u8) xs hel true []
       ((Telems ext xs ++ 0x5d :: rest).length + 1) rest (pos + 1) (by simp)
     simp only [if_true] at hloop
     have hde : deBytes env t (0x5b :: (Telems ext xs ++ 0x5d :: rest)) pos =
@@ -172,6 +187,15 @@ theorem agree_bytes (t : Nat) (v : JV) (hv : VOK v) (hd : DepthOK env t v)
     rw [withPeek_cons env _ hw]
     simp only [ht.2.2.2.2.2.2.2.2, ht.2.2.2.2.2.2.1, Bool.false_eq_true, if_false]
     exact peekInvalidType_not_ok _ _ _ _ _ _
+
+include hap in
+/-- byte buffers without `arbitrary_precision`. `hfl`: a float among the elements is refused by `deserialize_u8` (see `agree_int`) -/
+theorem agree_bytes (t : Nat) (v : JV) (hv : VOK v) (hd : DepthOK env t v)
+    (hfl : ∀ xs, v = .arr xs → ∀ x ∈ xs, ∀ b, x = .num (.float b) → ∀ rest pos, SepOK rest → ∀ y r p,
+      deInt env .u8 (T ext x ++ rest) pos ≠ .ok y r p) :
+    Agree1 (deBytes env t) (FromValue.fromValue cfg' ext' .bytes v) (T ext v) :=
+  agree_bytes_g ext hext hflt cfg' ext' t v hv.g hd fun xs hxs x hx =>
+    (agree_int ext hext hflt cfg' hap ext' .u8 x (vok_elem xs x hx (hxs ▸ hv)) (hfl xs hxs x hx)).weak
 
 end
 
